@@ -70,7 +70,7 @@ def filter (req : Json) : R Reply := do
             let sm ← asList asStr (← field obs "secondModified")
             let ss ← asBool (← field obs "secondSame")
             pure (propagateWrong gs after ++ propagateMissing marks incl gs after ++
-                  promotionWrong bnd marks incl gs after ++
+                  promotionWrong bnd marks incl gs after ++ numberingWrong gs after ++
                   (if sm.isEmpty && ss then [] else ["<second application changed something>"]))
         | _ => pure (renderChanged gs after ++
             (if fname == "flatten" && !holdsFlatDepth after incl then ["<nested component left>"] else [])))
